@@ -91,7 +91,7 @@ def run(ctx):
                     'integer tables (ledger, non-negativity, locked placement kept). Real solvers: random subsets of 7 chemicals, flows 1e-3..1e3, random initial '
                     'distribution over g / l / L / s (Stream and MultiStream), histories of 8 calls on the same stream: vle with TP, TV, PV, PH, PS, TH, TS, Tx, Ty, '
                     'Px, Py, lle (with / without top chemical and cache), sle (given / computed solubility), vlle; each logged table judged by TLC')
-    return 'model_checking', cov, ASSUME
+    return 'exploration', cov, ASSUME
 
 
 def replay(ctx, data):
